@@ -17,4 +17,8 @@ CLAIMS = {
         text="Generated schema specs (reflect.MakeFunc field funcs over a pool of Go struct/union/enum types, every receiver/args/error signature form) x generated valid queries (merged aliases with different sub-selections, repeated and nested named fragments, unions incl. several fragments per member, fragments on the union, uncovered members, nil objects, empty lists, keyed objects, variables with defaults). Each case runs under 3-6 combinations of per-field execution mode (plain/Expensive/batch/batch-with-fallback/NumParallelInvocations=k), work scheduler (thunder's goroutine scheduler, FIFO, LIFO, seeded-random, pools), fallback flag, inside/outside a reactive rerunner with batching, resolver yields; every result must equal an independent sequential reference interpreter.",
         ref="DESIGN.md 4/C01 and appendix A", technique="property-based differential + metamorphic testing (rapid): thunder executor under generated modes/schedulers vs reference interpreter",
         note="the reference interpreter (harness/world/ref.go) and the pure data function are trusted; same response key implies same field+args by construction; interleavings limited to the provided schedulers, yields and -race shards"),
+    "C19": dict(
+        text="Generated valid queries annotated with @skip/@include (literal and variable conditions, defaults, both directives on one node, same named fragment spread several times with different conditions, directives on union-member fragments and on copies of a duplicated alias). Metamorphic oracle: thunder(annotated, vars) == thunder(pruned) == reference(pruned), where pruning is done on the harness AST.",
+        ref="DESIGN.md 4/C19", technique="property-based metamorphic testing (rapid): annotated vs textually pruned query, plus reference interpreter",
+        note="conditions are booleans; each selection set keeps an unconditional leaf; federation-gateway leg is part of the C06 machinery"),
 }
